@@ -53,6 +53,7 @@ type UnitResult struct {
 	Assumed     []string        `json:"assumed,omitempty"`
 	Trusted     []string        `json:"trusted_contracts,omitempty"`
 	UsedContracts []string      `json:"used_contracts,omitempty"`
+	Writes      []string        `json:"writes,omitempty"`
 	WallMs      int64           `json:"wall_ms"`
 	Pos         string          `json:"pos,omitempty"`
 }
@@ -367,6 +368,15 @@ func realMain() int {
 				os.WriteFile(filepath.Join(*flagDump, "final0.smt2"), []byte(b.String()), 0o644)
 			}
 		}
+		if u.con != nil && !u.con.Lemma {
+			w := map[string]bool{}
+			for _, f := range finals {
+				for k := range f.dirty {
+					w[k] = true
+				}
+			}
+			ur.Writes = sortedKeys(w)
+		}
 		ur.Obligations = groupObligations(x.obls)
 		if *flagDump != "" {
 			os.MkdirAll(*flagDump, 0o755)
@@ -566,11 +576,23 @@ func coverCheck(x *Run, finals []*State) string {
 				return
 			}
 			var b strings.Builder
-			b.WriteString(x.d.preamble())
+			// quantified axioms are left out of the vacuity query: solvers cannot
+			// build models for them; contradictions that make a proof vacuous come
+			// from the quantifier-free assumptions
+			for _, l := range strings.Split(x.d.preamble(), "\n") {
+				if !strings.Contains(l, "(forall ") {
+					b.WriteString(l + "\n")
+				}
+			}
 			for _, c := range f.pc {
-				b.WriteString("(assert " + pcPlain(c) + ")\n")
+				if !strings.Contains(c, "(forall ") {
+					b.WriteString("(assert " + pcPlain(c) + ")\n")
+				}
 			}
 			r := solve(b.String(), 3, false, []string{"z3-new"})
+			if r.Status != "sat" && r.Status != "unsat" {
+				r = solve(b.String(), 10, false, nil)
+			}
 			if r.Status == "sat" {
 				atomic.StoreInt32(&stop, 1)
 			}
